@@ -179,6 +179,7 @@ func CheckC01(c *Ctx) {
 	c.defaultsWiring("defaults-wiring", "trend", "momentum", "volatility", "volume")
 	c.constructorParameters("defaults-wiring", "trend", "momentum", "volatility", "volume")
 	c.derivedPeriods()
+	c.trimaPeriods()
 	run.Floor("default_constant_uses", 60)
 	for k, v := range intrinsicOffsets {
 		run.Assume("intrinsic offset " + k + " = " + v.Skew + ": " + v.Why)
